@@ -302,7 +302,7 @@ def g_assign_auto(R, tier):
         ok = len(v["calls"]) == 1
         h = v["calls"][0][0] if ok else None
         want = handlers.get(h)
-        ok = ok and bool(t.cands) and all(issubclass(k, want) for k in t.cands) and v["calls"][0][1] is t and v["calls"][0][2] is v["V"]
+        ok = ok and want is not None and bool(t.cands) and all(issubclass(k, want) for k in t.cands) and v["calls"][0][1] is t and v["calls"][0][2] is v["V"]
         ok = ok and isinstance(v["res"], list) and len(v["res"]) == 1
         seen.add(h)
         R.check(f"{base}/dispatch/{'|'.join(sorted(k.__name__ for k in t.cands))}", ok, f"calls={v['calls']!r} result={v['res']!r}")
@@ -579,7 +579,10 @@ def check_aug(R, nm, sig, p, kind, opcls, iop):
         R.check(f"{nm}/target-part-evaluated-once/{atom}/{sig}", n == (0 if absent else 1), f"{atom} evaluated {n} times",
                 replay=dict(kind="src", src="log = []\nclass C:\n    x = 0\nc = C()\ndef f():\n    log.append('f')\n    return c\nf().x += 1\n"
                                                  "def p(n, v):\n    log.append(n)\n    return v\nrec = list(range(8))\nrec[1:7:p('step', 2)] += p('value', [])\nrec[::p('stride', 4)] += []\n"
-                                                 "rec[p('lo', 0):4] += p('tail', [])\nrec[p('i', 2)] += p('inc', 10)\nd = {'k': 1}\nd[p('key', 'k')] -= p('dec', 1)\nr = (c.x, log, rec, d)\n", expect="same-globals"))
+                                                 "rec[p('lo', 0):4] += p('tail', [])\nrec[p('i', 2)] += p('inc', 10)\nd = {'k': 1}\nd[p('key', 'k')] -= p('dec', 1)\n"
+                                                 "class L(list):\n    def __getitem__(self, k):\n        log.append(('get', k))\n        return list.__getitem__(self, k)\n"
+                                                 "grid = L([L([1, 2]), L([3, 4])])\ngrid[0][1] += 5\nclass Cell:\n    pass\nholder = Cell()\nholder.c = Cell()\nholder.c.items = L([1])\n"
+                                                 "holder.c.items[0] += 1\ngrid[1][0:1] += [9]\nr = (c.x, log, rec, d, grid, holder.c.items)\n", expect="same-globals"))
 
 
 def _ifexp_selects(c, stored, cond, arm, result):
@@ -670,6 +673,8 @@ def replay_destructure(rp):
         "a, *b, c = range(6)\nr = (a, b, c)\n", "*a, b = [1, 2, 3]\nr = (a, b)\n", "a, *b = 'xyz'\nr = (a, b)\n",
         "a, b, *c, d, e = iter(range(9))\nr = (a, b, c, d, e)\n", "[a, (b, *c), *d] = [1, (2, 3, 4), 5, 6]\nr = (a, b, c, d)\n",
         "a, b = (i for i in (1, 2))\nr = (a, b)\n", "a, *b, c = [1, 2]\nr = (a, b, c)\n",
+        "a, (b, c) = 1, iter([2, 3])\nr = (a, b, c)\n", "i, (j, k) = 0, {1: 'one', 0: 'zero'}\nr = (i, j, k)\n", "(a, (b, *c)), d = (1, (q for q in (2, 3, 4))), 5\nr = (a, b, c, d)\n",
+        "[u, [v, [w, x]]] = 1, iter([2, iter([3, 4])])\nr = (u, v, w, x)\n",
     ]
     for s in srcs:
         rep = RU.replay_source(s, "same-globals", names=["r"])
